@@ -13,7 +13,7 @@ ENUM_PREFIX = 'yakushima::'
 # ---------------------------------------------------------------------------
 
 def _is_bool_ty(t):
-    return t in ('bool', 'const bool')
+    return (t or '').strip() in ('bool', 'const bool', 'bool const')
 
 
 def _is_int_ty(t):
@@ -23,7 +23,9 @@ def _is_int_ty(t):
 
 
 def _is_enum_ty(t):
-    t = (t or '').replace('const ', '')
+    t = (t or '').replace('const ', '').strip()
+    if t.endswith(' const'):
+        t = t[:-6].strip()
     return t in ('yakushima::status', 'yakushima::scan_endpoint')
 
 
@@ -106,9 +108,16 @@ def enum_in(vals):
     return 'in:' + '|'.join(sorted(vals))
 
 
-def _value_of(f, n, ty, facts):
+def _value_of(f, n, ty, facts, fs=None):
     """Abstract value of initialiser / right-hand side n for a tracked variable of type ty."""
     c = const_of(f, n)
+    if c is None and fs is not None:
+        # a copy of another tracked local: what is known about that local
+        m0 = f.strip(n, casts=True)
+        if m0 is not None and m0['k'] == 'DeclRefExpr' and m0.get('dk') in ('var', 'parm'):
+            known = facts_get(fs, m0.get('id'))
+            if known is not None:
+                return known
     if _is_bool_ty(ty):
         if c == 'ZERO':
             return 'F'
@@ -131,7 +140,7 @@ def track_assign(f, n, fs, facts=None, tracked_types=(_is_bool_ty, _is_enum_ty))
             if (_is_int_ty(v['type']) or v['type'].rstrip().endswith('*')) and facts_get(fs, v['id']) is not None:
                 fs = facts_set(fs, v['id'], None)
             if any(p(v['type']) for p in tracked_types):
-                val = _value_of(f, v['init'], v['type'], facts) if 'init' in v else None
+                val = _value_of(f, v['init'], v['type'], facts, fs) if 'init' in v else None
                 fs = facts_set(fs, v['id'], val)
         return fs
     if k in ('BinaryOperator', 'CompoundAssignOperator') and (n.get('op') or '').endswith('=') and \
@@ -143,7 +152,7 @@ def track_assign(f, n, fs, facts=None, tracked_types=(_is_bool_ty, _is_enum_ty))
                     facts_get(fs, lhs['id']) is not None:
                 fs = facts_set(fs, lhs['id'], None)
             if n.get('op') == '=' and any(p(lhs.get('ty')) for p in tracked_types):
-                fs = facts_set(fs, lhs['id'], _value_of(f, c[1], lhs.get('ty'), facts))
+                fs = facts_set(fs, lhs['id'], _value_of(f, c[1], lhs.get('ty'), facts, fs))
         return fs
     if k == 'UnaryOperator' and n.get('op') in ('++', '--'):
         x = f.strip(f.ch(n)[0])
